@@ -1,12 +1,14 @@
 (* C08 - Variation, sampling and search never leave the declared parameter box.
    Property theorems only; each is closed by `exact`, followed by Print Assumptions. *)
 From Coq Require Import List ZArith QArith Bool Floats.
-From Artap Require Import Base.Ord Base.FloatInst Base.QInst Model.Variation Proofs.VariationProofs.
+From Artap Require Import Base.Ord Base.FloatInst Base.QInst Model.Variation Model.VariationRun Model.VariationGen
+     Proofs.VariationProofs Proofs.VariationRunProofs Proofs.VariationGenProofs.
 Import ListNotations.
 
 Section C08.
   Context {T : Type} (ltb : T -> T -> bool) (H : SWO ltb).
 
+  (* ---- operators ------------------------------------------------------------------------------------- *)
   (* clip(v, lo, hi) with lo <= hi: not below lo, not above hi, and one of its three arguments *)
   Theorem C08_clip_in_box : forall v lo hi, ltb hi lo = false ->
     ltb (clip ltb v lo hi) lo = false /\ ltb hi (clip ltb v lo hi) = false /\
@@ -41,6 +43,20 @@ Section C08.
     length c1 = length p1 /\ length c2 = length p2 /\ in_box ltb params c1 /\ in_box ltb params c2.
   Proof. exact (sbx_in_box ltb H). Qed.
 
+  (* the same for parents that are only inside a wider box `outer` (the declared box plus the rounding slack
+     of the generators): children are inside `outer`; varied coordinates are inside the declared box *)
+  Theorem C08_mutation_in_box_outer : forall k prob params outer parent tape child,
+    boxes ltb params outer -> in_box ltb outer parent ->
+    mutate_with ltb k prob params parent tape = Some child ->
+    length child = length parent /\ in_box ltb outer child.
+  Proof. exact (mutate_with_in_box ltb H). Qed.
+
+  Theorem C08_sbx_in_box_outer : forall far half prob params outer p1 p2 tape c1 c2,
+    boxes ltb params outer -> in_box ltb outer p1 -> in_box ltb outer p2 ->
+    sbx_cross ltb far half prob params p1 p2 tape = Some (c1, c2) ->
+    length c1 = length p1 /\ length c2 = length p2 /\ in_box ltb outer c1 /\ in_box ltb outer c2.
+  Proof. exact (sbx_in_box_outer ltb H). Qed.
+
   (* swarm position update: whatever the position and the velocity were, the new position is in
      the box (for every addition and every velocity correction) *)
   Theorem C08_position_in_box : forall add bounce params xs vs xs' vs',
@@ -49,23 +65,77 @@ Section C08.
     in_box ltb params xs' /\ length vs' = length vs.
   Proof. exact (position_in_box ltb H). Qed.
 
-  (* Run level.  `outer` is the declared box widened by the generators' rounding precision
-     (gen_vector_in_box below); `derived` is the closure of "in the outer box" under the modelled
-     mutators, SBX and both position updates, with arbitrary tapes.  The full statement is about
-     the set of vectors a run submits for evaluation; it is proved for every set all of whose
-     members are derived.  That the five run loops only submit derived vectors is not a theorem:
-     it is checked on every real run by the harness (provenance check + box oracle). *)
-  Definition C08_run_full_statement (outer : list (T * T)) (evaluated : list T -> Prop) : Prop :=
-    forall v, evaluated v -> in_box ltb outer v.
+  (* ---- design-of-experiment generators that pick levels (any ordered type) ------------------------------ *)
+  Theorem C08_two_level_in_box : forall params x rows,
+    Forall (wf ltb) params -> Forall (fun row => length row = length params) x ->
+    construct_df (map levels2 params) x = Some rows -> length rows = length x /\ Forall (in_box ltb params) rows.
+  Proof. exact (two_level_in_box ltb H). Qed.
 
-  Theorem C08_run_in_box_partial : forall far half add bounce1 bounce2 params outer (evaluated : list T -> Prop),
-    boxes ltb params outer ->
-    (forall v, evaluated v -> derived ltb far half add bounce1 bounce2 params outer v) ->
-    C08_run_full_statement outer evaluated.
-  Proof. exact (run_in_box ltb H). Qed.
+  Theorem C08_three_level_in_box : forall mid params x rows,
+    Forall (wf ltb) params -> (forall p, In p params -> inside ltb p (mid p)) ->
+    Forall (fun row => length row = length params) x ->
+    construct_df (map (levels3 mid) params) x = Some rows -> length rows = length x /\ Forall (in_box ltb params) rows.
+  Proof. exact (three_level_in_box ltb H). Qed.
+
+  (* ---- one generation of each algorithm, and whole runs --------------------------------------------------
+     `outer` contains the declared box; okl = every vector of a list is inside `outer`; script_ok = the
+     re-rolled designs of a script are inside `outer`.  Selections, tapes and velocities are arbitrary. *)
+  Section Runs.
+    Variable far : T -> T -> bool.
+    Variable half : T.
+    Variable add : T -> T -> T.
+    Variables flip damp : T -> T.
+    Variable close : T -> T -> bool.
+    Variables params outer : list (T * T).
+    Hypothesis HB : boxes ltb params outer.
+    Let ok := okl ltb outer.
+    Let sok := script_ok ltb outer.
+
+    Theorem C08_step_in_box_nsga2 : forall N pc pm pop s sub pop', ok pop -> sok s ->
+      nsga2_step ltb far half close params N pc pm pop s = Some (sub, pop') -> ok sub /\ ok pop'.
+    Proof. exact (step_in_box_nsga2 ltb H far half close params outer HB). Qed.
+
+    Theorem C08_step_in_box_epsmoea : forall N pc pm st s sub st', ok_state2 ltb outer st -> sok s ->
+      epsmoea_step ltb far half close params N pc pm st s = Some (sub, st') -> ok sub /\ ok_state2 ltb outer st'.
+    Proof. exact (step_in_box_epsmoea ltb H far half close params outer HB). Qed.
+
+    Theorem C08_step_in_box_omopso : forall prob pop s sub pop', ok pop -> sok s ->
+      omopso_step ltb add flip params prob pop s = Some (sub, pop') -> ok sub /\ ok pop'.
+    Proof. exact (step_in_box_omopso ltb H add flip params outer HB). Qed.
+
+    Theorem C08_step_in_box_smpso : forall prob pop s sub pop', ok pop -> sok s ->
+      smpso_step ltb add damp params prob pop s = Some (sub, pop') -> ok sub /\ ok pop'.
+    Proof. exact (step_in_box_smpso ltb H add damp params outer HB). Qed.
+
+    Theorem C08_step_in_box_psoga : forall pc pm pop s sub pop', ok pop -> sok s ->
+      psoga_step ltb far half add flip params pc pm pop s = Some (sub, pop') -> ok sub /\ ok pop'.
+    Proof. exact (step_in_box_psoga ltb H far half add flip params outer HB). Qed.
+
+    (* every population size, every number of generations: by induction over the list of scripts *)
+    Theorem C08_run_in_box_nsga2 : forall N pc pm pop0 rr0 ss sub pop, ok pop0 -> Forall ok rr0 -> Forall sok ss ->
+      run_nsga2 ltb far half close params N pc pm pop0 rr0 ss = Some (sub, pop) -> ok sub /\ ok pop.
+    Proof. exact (run_in_box_nsga2 ltb H far half close params outer HB). Qed.
+
+    Theorem C08_run_in_box_epsmoea : forall N pc pm arch0 pop0 rr0 ss sub st, ok pop0 -> Forall ok rr0 -> Forall sok ss ->
+      run_epsmoea ltb far half close params N pc pm arch0 pop0 rr0 ss = Some (sub, st) -> ok sub /\ ok_state2 ltb outer st.
+    Proof. exact (run_in_box_epsmoea ltb H far half close params outer HB). Qed.
+
+    Theorem C08_run_in_box_omopso : forall prob pop0 rr0 ss sub pop, ok pop0 -> Forall ok rr0 -> Forall sok ss ->
+      run_omopso ltb add flip params prob pop0 rr0 ss = Some (sub, pop) -> ok sub /\ ok pop.
+    Proof. exact (run_in_box_omopso ltb H add flip params outer HB). Qed.
+
+    Theorem C08_run_in_box_smpso : forall prob pop0 rr0 ss sub pop, ok pop0 -> Forall ok rr0 -> Forall sok ss ->
+      run_smpso ltb add damp params prob pop0 rr0 ss = Some (sub, pop) -> ok sub /\ ok pop.
+    Proof. exact (run_in_box_smpso ltb H add damp params outer HB). Qed.
+
+    Theorem C08_run_in_box_psoga : forall pc pm pop0 rr0 ss sub pop, ok pop0 -> Forall ok rr0 -> Forall sok ss ->
+      run_psoga ltb far half add flip params pc pm pop0 rr0 ss = Some (sub, pop) -> ok sub /\ ok pop.
+    Proof. exact (run_in_box_psoga ltb H far half add flip params outer HB). Qed.
+  End Runs.
 End C08.
 
-(* random generator (exact rationals): within half a precision step of [lb, ub] *)
+(* ---- generators in exact rational arithmetic ------------------------------------------------------------ *)
+(* random generator: within half a precision step (declared, or the default 1e-12) of [lb, ub] *)
 Theorem C08_gen_number_in_box : forall r lb ub p, (0 <= r -> r < 1 -> lb <= ub -> 0 <= p ->
   lb - effective_precision p / 2 <= gen_number r lb ub p /\
   gen_number r lb ub p <= ub + effective_precision p / 2)%Q.
@@ -77,7 +147,60 @@ Theorem C08_gen_vector_in_box : forall params draws v,
   length v = length params /\ Forall2 q_inside params v.
 Proof. exact gen_vector_in_box. Qed.
 
-(* the binary64 instance: Python's `<`, for every float value of v including infinities *)
+(* LHS, Halton: a design matrix in the unit cube is mapped into the box *)
+Theorem C08_scaled_design_in_box : forall ps x rows,
+  Forall (wf Qltb) ps -> Forall (fun w => unit_row w /\ length w = length ps) x ->
+  scale_rows ps x = Some rows -> length rows = length x /\ Forall (in_box Qltb ps) rows.
+Proof. exact scaled_design_in_box. Qed.
+
+(* UniformGenerator: every combination of the equidistant levels *)
+Theorem C08_uniform_grid_in_box : forall number ps x rows,
+  Forall (wf Qltb) ps -> (2 <= number)%nat -> Forall (fun row => length row = length ps) x ->
+  construct_df (map (grid_levels number) ps) x = Some rows -> length rows = length x /\ Forall (in_box Qltb ps) rows.
+Proof. exact uniform_grid_in_box. Qed.
+
+(* three-level designs with the arithmetic mid-point *)
+Theorem C08_three_level_mid_in_box : forall params x rows,
+  Forall (wf Qltb) params -> Forall (fun row => length row = length params) x ->
+  construct_df (map (levels3 q_mid) params) x = Some rows -> length rows = length x /\ Forall (in_box Qltb params) rows.
+Proof.
+  exact (fun params x rows W => three_level_in_box Qltb Qltb_SWO q_mid params x rows W
+           (fun p Hp => q_mid_inside p (proj1 (Forall_forall _ _) W p Hp))).
+Qed.
+
+(* runs whose initial and re-rolled designs come from gen_vector: every evaluated design is within half a
+   precision step of the box (the statement of the property for the five algorithms, in exact arithmetic) *)
+Theorem C08_run_nsga2_designs_in_box : forall far half close qp, Forall q_wf qp ->
+  forall N pc pm pop0 rr0 ss sub pop,
+  Forall (generated qp) pop0 -> rerolls_generated qp rr0 -> Forall (script_generated qp) ss ->
+  run_nsga2 Qltb far half close (q_box qp) N pc pm pop0 rr0 ss = Some (sub, pop) -> designs_in_box qp sub.
+Proof. exact q_run_nsga2. Qed.
+
+Theorem C08_run_epsmoea_designs_in_box : forall far half close qp, Forall q_wf qp ->
+  forall N pc pm arch0 pop0 rr0 ss sub st,
+  Forall (generated qp) pop0 -> rerolls_generated qp rr0 -> Forall (script_generated qp) ss ->
+  run_epsmoea Qltb far half close (q_box qp) N pc pm arch0 pop0 rr0 ss = Some (sub, st) -> designs_in_box qp sub.
+Proof. exact q_run_epsmoea. Qed.
+
+Theorem C08_run_omopso_designs_in_box : forall flip qp, Forall q_wf qp ->
+  forall prob pop0 rr0 ss sub pop,
+  Forall (generated qp) pop0 -> rerolls_generated qp rr0 -> Forall (script_generated qp) ss ->
+  run_omopso Qltb Qplus flip (q_box qp) prob pop0 rr0 ss = Some (sub, pop) -> designs_in_box qp sub.
+Proof. exact q_run_omopso. Qed.
+
+Theorem C08_run_smpso_designs_in_box : forall damp qp, Forall q_wf qp ->
+  forall prob pop0 rr0 ss sub pop,
+  Forall (generated qp) pop0 -> rerolls_generated qp rr0 -> Forall (script_generated qp) ss ->
+  run_smpso Qltb Qplus damp (q_box qp) prob pop0 rr0 ss = Some (sub, pop) -> designs_in_box qp sub.
+Proof. exact q_run_smpso. Qed.
+
+Theorem C08_run_psoga_designs_in_box : forall far half flip qp, Forall q_wf qp ->
+  forall pc pm pop0 rr0 ss sub pop,
+  Forall (generated qp) pop0 -> rerolls_generated qp rr0 -> Forall (script_generated qp) ss ->
+  run_psoga Qltb far half Qplus flip (q_box qp) pc pm pop0 rr0 ss = Some (sub, pop) -> designs_in_box qp sub.
+Proof. exact q_run_psoga. Qed.
+
+(* ---- the binary64 instance: Python's `<`, for every float value including infinities ---------------------- *)
 Theorem C08_float_clip_in_box : forall v lo hi, fltb hi lo = false ->
   fltb (clip fltb v lo hi) lo = false /\ fltb hi (clip fltb v lo hi) = false /\
   (clip fltb v lo hi = v \/ clip fltb v lo hi = lo \/ clip fltb v lo hi = hi).
@@ -89,17 +212,52 @@ Theorem C08_float_sbx_in_box : forall far half prob params p1 p2 tape c1 c2,
   length c1 = length p1 /\ length c2 = length p2 /\ in_box fltb params c1 /\ in_box fltb params c2.
 Proof. exact (sbx_in_box fltb fltb_SWO). Qed.
 
+Theorem C08_float_run_in_box_nsga2 : forall far half close params outer, boxes fltb params outer ->
+  forall N pc pm pop0 rr0 ss sub pop,
+  okl fltb outer pop0 -> Forall (okl fltb outer) rr0 -> Forall (script_ok fltb outer) ss ->
+  run_nsga2 fltb far half close params N pc pm pop0 rr0 ss = Some (sub, pop) -> okl fltb outer sub /\ okl fltb outer pop.
+Proof. exact (run_in_box_nsga2 fltb fltb_SWO). Qed.
+
+Theorem C08_float_run_in_box_psoga : forall far half add flip params outer, boxes fltb params outer ->
+  forall pc pm pop0 rr0 ss sub pop,
+  okl fltb outer pop0 -> Forall (okl fltb outer) rr0 -> Forall (script_ok fltb outer) ss ->
+  run_psoga fltb far half add flip params pc pm pop0 rr0 ss = Some (sub, pop) -> okl fltb outer sub /\ okl fltb outer pop.
+Proof. exact (run_in_box_psoga fltb fltb_SWO). Qed.
+
 Print Assumptions C08_clip_in_box.
 Print Assumptions C08_pm_in_box.
 Print Assumptions C08_uniform_in_box.
 Print Assumptions C08_nonuniform_in_box.
 Print Assumptions C08_sbx_in_box.
+Print Assumptions C08_mutation_in_box_outer.
+Print Assumptions C08_sbx_in_box_outer.
 Print Assumptions C08_position_in_box.
-Print Assumptions C08_run_in_box_partial.
+Print Assumptions C08_two_level_in_box.
+Print Assumptions C08_three_level_in_box.
+Print Assumptions C08_step_in_box_nsga2.
+Print Assumptions C08_step_in_box_epsmoea.
+Print Assumptions C08_step_in_box_omopso.
+Print Assumptions C08_step_in_box_smpso.
+Print Assumptions C08_step_in_box_psoga.
+Print Assumptions C08_run_in_box_nsga2.
+Print Assumptions C08_run_in_box_epsmoea.
+Print Assumptions C08_run_in_box_omopso.
+Print Assumptions C08_run_in_box_smpso.
+Print Assumptions C08_run_in_box_psoga.
 Print Assumptions C08_gen_number_in_box.
 Print Assumptions C08_gen_vector_in_box.
+Print Assumptions C08_scaled_design_in_box.
+Print Assumptions C08_uniform_grid_in_box.
+Print Assumptions C08_three_level_mid_in_box.
+Print Assumptions C08_run_nsga2_designs_in_box.
+Print Assumptions C08_run_epsmoea_designs_in_box.
+Print Assumptions C08_run_omopso_designs_in_box.
+Print Assumptions C08_run_smpso_designs_in_box.
+Print Assumptions C08_run_psoga_designs_in_box.
 Print Assumptions C08_float_clip_in_box.
 Print Assumptions C08_float_sbx_in_box.
+Print Assumptions C08_float_run_in_box_nsga2.
+Print Assumptions C08_float_run_in_box_psoga.
 
 (* non-vacuity: concrete boxes, parents, tapes meet the hypotheses and the operators do change
    the vectors (Z instance: far = "differ", half = 5 on a 0..10 scale) *)
@@ -130,3 +288,63 @@ Example C08_ex_gen_number :
   gen_vector [(-3, 5, 1 # 100); (0, 1, 1 # 2)]%Q [1 # 3; 3 # 4]%Q = Some [-33 # 100; 2 # 2]%Q /\
   gen_vector [(-3, 5, 1 # 100); (0, 1, 1 # 2)]%Q [1 # 3; 1 # 4]%Q = Some [-33 # 100; 0 # 2]%Q.
 Proof. vm_compute. repeat split; try reflexivity; discriminate. Qed.
+
+(* runs: two generations' worth of oracle scripts that the model accepts, with crossover, mutation that is
+   clipped (Pre 14 -> 10, Pre -3 -> 0), a failed evaluation that is re-rolled, truncation, archive update,
+   reordering of the swarm, turbulence and the PSOGA offspring *)
+Definition zfar (a b : Z) : bool := negb (a =? b)%Z.
+Definition zclose (a b : Z) : bool := (a =? b)%Z.
+
+Example C08_ex_run_nsga2 :
+  run_nsga2 Z.ltb zfar 5%Z zclose [(0, 10)]%Z 2 5%Z 5%Z [[3]; [7]]%Z [[]; []]
+    [Build_script [Build_breed 0 1 [Draw 9] [Draw 2; Draw 0; Pre 14] [Draw 8]]%Z [[]; [[4]]]%Z [0; 1; 3]%nat [] [] [] []]
+  = Some ([[3]; [7]; [10]; [7]; [4]], [[10]; [4]; [7]])%Z.
+Proof. vm_compute. reflexivity. Qed.
+
+Example C08_ex_run_epsmoea :
+  run_epsmoea Z.ltb zfar 5%Z zclose [(0, 10)]%Z 2 5%Z 5%Z [1%nat] [[3]; [7]]%Z [[]; []]
+    [Build_script [Build_breed 0 2 [Draw 1; Draw 2; Draw 0; Pre (-3); Pre 12; Draw 9] [Draw 8] [Draw 8]]%Z [[]; []]
+       [1; 2]%nat [0; 1]%nat [] [] []]
+  = Some ([[3]; [7]; [0]; [10]], ([[7]; [0]], [[7]; [0]]))%Z.
+Proof. vm_compute. reflexivity. Qed.
+
+Example C08_ex_run_omopso :
+  run_omopso Z.ltb Z.add Z.opp [(0, 10)]%Z 5%Z [[3]; [7]; [5]; [1]]%Z [[]; []; []; []]
+    [Build_script [] [[]; []; [[6]]; []]%Z [3; 0; 1; 2]%nat [] [[20]; [-20]; [1]; [0]]%Z
+       [[Draw 1; Draw 0; Pre 15]; [Draw 7]; [Draw 7]; [Draw 2; Draw 0; Pre (-4)]]%Z []]
+  = Some ([[3]; [7]; [5]; [1]; [10]; [0]; [8]; [6]; [0]], [[10]; [0]; [6]; [0]])%Z.
+Proof. vm_compute. reflexivity. Qed.
+
+Example C08_ex_run_smpso :
+  run_smpso Z.ltb Z.add (fun _ => 0%Z) [(0, 10)]%Z 5%Z [[3]; [7]]%Z [[]; []]
+    [Build_script [] [[]; []] [0; 1]%nat [] [[20]; [-2]]%Z [[Draw 1; Draw 0; Pre 15]; []]%Z []]
+  = Some ([[3]; [7]; [10]; [5]], [[10]; [5]])%Z.
+Proof. vm_compute. reflexivity. Qed.
+
+Example C08_ex_run_psoga :
+  run_psoga Z.ltb zfar 5%Z Z.add Z.opp [(0, 10)]%Z 5%Z 5%Z [[3]; [7]]%Z [[]; []]
+    [Build_script [Build_breed 0 1 [Draw 1; Draw 2; Draw 0; Pre (-3); Pre 12; Draw 9] [Draw 8] [Draw 1; Draw 0; Pre 11]]%Z
+       [[]; []] [1; 0]%nat [] [[20]; [-2]]%Z [[]; []] [[]; [[2]]]%Z]
+  = Some ([[3]; [7]; [10]; [1]; [0]; [10]; [2]], [[10]; [1]; [0]; [2]])%Z.
+Proof. vm_compute. reflexivity. Qed.
+
+(* the hypotheses of the run theorems are met by these runs: the box is well formed and the initial and
+   re-rolled designs are inside it *)
+Example C08_ex_run_hyps :
+  boxes Z.ltb [(0, 10)]%Z [(0, 10)]%Z /\ okl Z.ltb [(0, 10)]%Z [[3]; [7]]%Z /\
+  script_ok Z.ltb [(0, 10)]%Z
+    (Build_script [Build_breed 0 1 [Draw 9] [Draw 2; Draw 0; Pre 14] [Draw 8]]%Z [[]; [[4]]]%Z [0; 1; 3]%nat [] [] [] []).
+Proof. repeat constructor. Qed.
+
+Example C08_ex_designs :
+  construct_df (map levels2 [(0, 10); (-5, 5)]%Z) [[0; 1]; [1; 1]; [1; 0]]%nat = Some [[0; 5]; [10; 5]; [10; -5]]%Z /\
+  construct_df (map (levels3 q_mid) [(0, 10); (-5, 5)]%Q) [[0; 1]; [1; 1]; [2; 0]]%nat
+    = Some [[0; 0 # 2]; [10 # 2; 0 # 2]; [10; -5]]%Q /\
+  scale_rows [(0, 10); (-5, 5)]%Q [[1 # 2; 1 # 4]; [0; 1]]%Q = Some [[10 # 2; -10 # 4]; [0; 5]]%Q /\
+  construct_df (map (grid_levels 3) [(0, 10); (-5, 5)]%Q) [[0; 1]; [2; 2]]%nat = Some [[0 # 2; 0 # 2]; [20 # 2; 10 # 2]]%Q /\
+  generated [(-3, 5, 1 # 100); (0, 1, 1 # 2)]%Q [-33 # 100; 2 # 2]%Q.
+Proof.
+  repeat split; try (vm_compute; reflexivity).
+  exists [1 # 3; 3 # 4]%Q. split; [|vm_compute; reflexivity].
+  repeat constructor; vm_compute; congruence.
+Qed.
